@@ -50,8 +50,8 @@ Inductive verdict := VProved (sh : shape) | VArgued | VOpen (why : string).
 
 Definition site_verdict (s : site) : verdict :=
   match classify s with
-  | Some (_, ShCollectSort sl by_type) =>
-      if sorter_ok by_type then VProved (ShCollectSort sl by_type)
+  | Some (_, ShCollectSort sl (CmpNamed by_type)) =>
+      if sorter_ok by_type then VProved (ShCollectSort sl (CmpNamed by_type))
       else if is_argued s then VArgued
       else VOpen "the collected slice is sorted by a type that is not a reviewed canonical sorter (or its Less method changed)"
   | Some (_, sh) => VProved sh
@@ -253,22 +253,32 @@ Definition hazards_found : N := N.of_nat (List.length hazard_groups).
 Definition hazard_constructs : N := fold_left (fun a g => (a + snd g)%N) hazard_groups 0%N.
 Definition hazards_allowed : N := (hazards_found - N.of_nat (List.length unallowed_hazards) - N.of_nat (List.length finding_groups))%N.
 
-(** ** 3. the ETH seal verification's configuration, as written in VerifyCascadingFields (regenerated):
-    the cache directory is the empty string (in-memory cache) and VerifySeal is called with fulldag = false — the two
-    premises under which [Props/C14.v: eth_seal_env_independent] applies *)
+(** ** 3. the ETH seal verification's configuration, regenerated: EVERY construction of the ethash engine outside the
+    engine's own files receives a Config whose cache directory is the empty string (in-memory cache; the Config is
+    resolved through once-assigned variables and parameterless helpers; an unresolved one has a "?" field), there is at
+    least one, and EVERY call of VerifySeal outside them passes fulldag = false — the two premises under which
+    [Props/C14.v: eth_seal_env_independent] applies.  Where in the package the construction and the call sit does not
+    matter (they may be moved into helpers). *)
 Definition assoc_str (k : string) (l : list (string * string)) : option string :=
   match find (fun p => String.eqb k (fst p)) l with Some p => Some (snd p) | None => None end.
 
-Definition eth_seal_config_ok : bool :=
-  match assoc_str "CacheDir" eth_verify_config with
+(** a Config literal without a CacheDir field has the zero value "" *)
+Definition config_in_memory (fields : list (string * string)) : bool :=
+  negb (existsb (fun p => String.eqb "?" (fst p)) fields) &&
+  Nat.leb (List.length (filter (fun p => String.eqb "CacheDir" (fst p)) fields)) 1 &&
+  match assoc_str "CacheDir" fields with
   | Some v => String.eqb v """"""
-  | None => false
-  end &&
-  Nat.eqb (List.length (filter (fun p => String.eqb "CacheDir" (fst p)) eth_verify_config)) 1 &&
-  match eth_verify_seal_args with
-  | [_; fulldag] => String.eqb fulldag "false"
-  | _ => false
+  | None => true
   end.
+
+Definition seal_call_light (args : list (string * string)) : bool :=
+  match assoc_str "1" args with Some v => String.eqb v "false" | None => false end.
+
+Definition eth_seal_config_ok : bool :=
+  match eth_engine_constructions with [] => false | _ => true end &&
+  forallb (fun u => config_in_memory (snd u)) eth_engine_constructions &&
+  match eth_verify_seal_calls with [] => false | _ => true end &&
+  forallb (fun u => seal_call_light (snd u)) eth_verify_seal_calls.
 
 (** the whole static side condition *)
 Definition inventory_ok : bool :=
